@@ -181,6 +181,32 @@ func runC02(c *Ctx) {
 	r.Extra["unspecified_getters"] = unspecified
 	r.Extra["table_rows"] = len(table)
 
+	// a getter that walks a table of entries behind a fixed header: the entries of the router-address view (header of
+	// eight octets: type, code, checksum, count, entry size, lifetime - the layout drawn above the type in the source)
+	// start after the header, so every slice of the receiver in Addrs has a lower bound of the form 8 + i*entry size
+	if fn := c.A.Method("", "ICMP4Redirect", "Addrs"); fn != nil {
+		n := 0
+		core.EachInstr(fn, func(i ssa.Instruction) {
+			sl, ok := i.(*ssa.Slice)
+			if !ok || sl.X != ssa.Value(fn.Params[0]) || sl.Low == nil {
+				return
+			}
+			n++
+			st, det := core.Violated, "ICMP4Redirect.Addrs takes entry i from "+norm(sl.Low)+": without the 8 octets of the header the first entry is the header itself (type, code, checksum, count, size, lifetime rendered as a router address)"
+			if bo, isB := sl.Low.(*ssa.BinOp); isB && bo.Op == token.ADD {
+				for _, side := range []ssa.Value{bo.X, bo.Y} {
+					if k, isC := side.(*ssa.Const); isC && k.Value != nil && k.Value.String() == "8" {
+						st, det = core.Proved, ""
+					}
+				}
+			}
+			r.Add(core.Obligation{Rule: "getter", Key: fmt.Sprintf("getter ICMP4Redirect.Addrs entry slice %d starts behind the header", n), Func: core.FuncName(fn), Pos: c.P.Pos(core.PosOf(i)), Status: st,
+				Basis: "lower bound = 8 + i*AddrSize*4", Detail: det})
+		})
+		if n == 0 {
+			r.Add(core.Obligation{Rule: "getter", Key: "getter ICMP4Redirect.Addrs entry slices", Func: core.FuncName(fn), Status: core.Undecided, Detail: "no slice of the receiver found in Addrs"})
+		}
+	}
 	runC02Parse(c)
 	runC02Offsets(c)
 	// Ether.HeaderLen: 14, +4 under the 802.1Q TPID 0x8100, +8 under the 802.1ad TPID 0x88a8 (IEEE 802.1Q clause 9)
